@@ -114,6 +114,16 @@ pub fn cases(tier: Tier) -> Vec<TCase> {
         "X = a; load(X); store(*R2);",
         "asm(\"CLV\", 1); asm(\"CLV\", 1);",
         "a = 1; asm(\"CLV\", 1); a = 1;",
+        // explicit statements inside functions that are inlined into a context that makes them look redundant
+        "@fn inline void hl() { load(*R1); strobe(R3); csleep(7); csleep(7); } @main a = 0; hl(); b = 1;",
+        "@fn inline void hl() { load(*R1); load(*R1); } @main load(*R1); hl(); hl();",
+        "@fn inline void hs() { store(*R2); store(*R2); } @main a = 5; store(*R2); hs(); a = 5; hs();",
+        "@fn inline void hk() { strobe(R3); } @main strobe(R3); hk(); hk(); strobe(R3);",
+        "@fn inline void hc() { csleep(7); } @main strobe(M1); hc(); hc(); csleep(7); strobe(M2);",
+        "@fn inline void ha() { asm(\"CLV\", 1); load(*RA); } @main ha(); ha();",
+        "@fn void hn() { load(*R1); strobe(R3); } @main hn(); load(*R1); hn();",
+        "@fn inline void hi2() { if (a) load(*R1); else strobe(R3); } @main hi2(); a = 0; hi2();",
+        "@fn inline void h1() { load(*R1); } inline void h2() { h1(); store(*R2); h1(); } @main h2(); h2();",
     ] {
         v.push(TCase::Trace(body.to_string()));
     }
@@ -121,7 +131,16 @@ pub fn cases(tier: Tier) -> Vec<TCase> {
 }
 
 fn mk_case(body: &str) -> SemCase {
-    let src = format!("{}void main()\n{{\n{}\n}}\n", DECL, body);
+    // "@fn <function definitions> @main <body>" puts functions before main
+    let (fns, body) = match body.strip_prefix("@fn ") {
+        Some(rest) => {
+            let mut it = rest.splitn(2, " @main ");
+            let f = it.next().unwrap_or("").to_string();
+            (format!("{}\n", f), it.next().unwrap_or("").to_string())
+        }
+        None => (String::new(), body.to_string()),
+    };
+    let src = format!("{}{}void main()\n{{\n{}\n}}\n", DECL, fns, body);
     let small: Vec<(&str, &[i32])> = vec![("a", &[0, 1, 2, 0x80, 255]), ("b", &[0, 1, 0xfe]), ("c", &[7]), ("r", &[0]), ("sav", &[0]), ("X", &[0, 1, 2]), ("Y", &[0, 2, 3]), ("s", &[0, 0xff])];
     let mut c = case_from_text("C18", &src, &small, vec!["timing"], 60);
     c.logged = REGS.iter().map(|r| r.0.to_string()).collect();
